@@ -332,6 +332,26 @@ theorem flatL_spec (n0 : Nat) (l : LE) (S : FS) :
     simp only [flatL, LE.eval]
     rw [← hr, this, hf]
     simp [Fun.val, va]
+  | iff a b =>
+    have h1 := flatL_spec n0 a S
+    have h2 := flatL_spec n0 b (flatL a S).2
+    obtain ⟨h3, d, hd, hr, hf⟩ := mkDef_spec
+      (normCmp (leadNeg ([(1, (flatL a S).1)] ++ negLin [(1, (flatL b (flatL a S).2).1)])) .eq
+        (condBody ([(1, (flatL a S).1)] ++ negLin [(1, (flatL b (flatL a S).2).1)])) (0 - 0))
+      (flatL b (flatL a S).2).2
+    refine ⟨by simpa [flatL] using (h1.1.trans h2.1).trans h3, fun D x hwf hpre hv => ?_⟩
+    simp only [flatL] at hpre
+    simp only [LE.vok, Bool.and_eq_true] at hv
+    have va := h1.2 D x hwf ((h2.1.trans h3).trans hpre) hv.1
+    have vb := h2.2 D x hwf (h3.trans hpre) hv.2
+    have := exact_spec x n0 D hwf d (hpre.subset hd)
+    simp only [flatL, LE.eval]
+    rw [← hr, this, hf, normCmp_val, condBody_eval, evalLin_append, evalLin_neg]
+    have := cmp_shift .eq (a.eval x) (b.eval x) 0 0
+      (evalLin (exactAsg x D) [(1, (flatL a S).1)]) (evalLin (exactAsg x D) [(1, (flatL b (flatL a S).2).1)])
+      (by rw [← va]; simp only [evalLin_cons, evalLin_nil]; grind) (by rw [← vb]; simp only [evalLin_cons, evalLin_nil]; grind)
+    have h' : Cmp5.eq.holds (a.eval x) (b.eval x) ↔ a.eval x = b.eval x := by simp [Cmp5.holds]
+    exact b2r_congr (this.trans h')
 
 theorem flatLs_spec (n0 : Nat) (ls : LEs) (S : FS) :
     S.defs <+: (flatLs ls S).2.defs ∧
